@@ -289,7 +289,7 @@ def instances(tier):
         out.append({'func': 'h_non_power_of_two', 'params': {'n': n}})
     for n in (2 ** 17 + 1, 2 ** 30 + 1, 2 ** 40 - 1, 2 ** 52 + 1):
         out.append({'func': 'h_non_power_of_two_large', 'params': {'n': n}})
-    for d, q, r in ([(2, 1, 2), (2, 2, 2), (3, 1, 2)] if quick else [(2, 1, 2), (2, 2, 2), (3, 1, 2), (2, 3, 2), (3, 2, 2), (2, 2, 3)]):
+    for d, q, r in ([(2, 1, 2), (2, 2, 2), (3, 1, 2), (1, 2, 1), (1, 3, 1)] if quick else [(2, 1, 2), (2, 2, 2), (3, 1, 2), (2, 3, 2), (3, 2, 2), (2, 2, 3), (1, 2, 1), (1, 3, 1), (1, 1, 1)]):
         out.append({'func': 'h_convert', 'params': {'d': d, 'q': q, 'r': r}})
     for r1, r2 in [(1, 2), (2, 2), (1, 1)]:
         out.append({'func': 'h_core_roundtrip_q1', 'params': {'r1': r1, 'r2': r2}})
